@@ -43,14 +43,15 @@ def _locate_wrap(ctx):
 
 
 def ordered_types(ctx):
-    """Crate structs with two Wrapping<usize> fields and a BinaryHeap field."""
+    """Crate structs with two position counters (Wrapping<usize>, or plain usize stepped with wrapping_add / wrapping_sub) and a
+    BinaryHeap field."""
     _locate_wrap(ctx)
     out = []
     for path, adt in ctx.facts.adts.items():
         if adt["kind"] != "struct":
             continue
         fs = adt["variants"][0]["fields"]
-        w = [f["name"] for f in fs if f["ty"] == "core::num::Wrapping<usize>"]
+        w = [f["name"] for f in fs if f["ty"] in ("core::num::Wrapping<usize>", "usize")]
         h = [f["name"] for f in fs if f["ty"].startswith("alloc::collections::BinaryHeap<")]
         if len(w) == 2 and len(h) == 1:
             out.append((path, w, h[0]))
@@ -91,6 +92,57 @@ def counter_of(ctx, body, expr, counters):
             if caps is not None and idx is not None and idx < len(caps):
                 return counter_of(ctx, pb, caps[idx], counters)
     return None
+
+
+RE_WRAP_STEP = r"core::num::<impl usize>::(wrapping_add|wrapping_sub)$"
+
+
+def counter_val(ctx, body, expr, counters):
+    """(counter, offset): `expr` is the value of a position counter, possibly stepped by wrapping_add / wrapping_sub with a
+    constant (offset = the signed sum of the steps)."""
+    e = strip_refs(expr)
+    off = 0
+    for _ in range(4):
+        if e[0] == "call" and re.search(RE_WRAP_STEP, e[1] or "") and len(e[2]) == 2 and e[2][1][0] == "const":
+            try:
+                k = int(e[2][1][2])
+            except ValueError:
+                return None, 0
+            off += k if e[1].endswith("wrapping_add") else -k
+            e = strip_refs(e[2][0])
+        else:
+            break
+    c = counter_of(ctx, body, e, counters)
+    return (c, off) if c else (None, 0)
+
+
+def counter_updates(ctx, b, fl, counters):
+    """Steps of the position counters in body b: ([(bb, counter)] +1 sites, [(bb, counter)] -1 sites, [(bb, counter)] other
+    stores).  Forms: `ctr += 1` / `ctr -= 1` on a Wrapping counter, `ctr = <ctr value>.wrapping_add(1)` / `.wrapping_sub(1)` on a
+    plain one (the stepped value may have been read into a local first)."""
+    adds = [(x[0], counter_of(ctx, b, fl.operand_expr(x[1]["args"][0]), counters)) for x in direct_sites(b, RE_ADD_ASSIGN)]
+    subs = [(x[0], counter_of(ctx, b, fl.operand_expr(x[1]["args"][0]), counters)) for x in direct_sites(b, RE_SUB_ASSIGN)]
+    other = []
+    for (sbb, i, st) in fl.stores:
+        if i == "term" or b.is_cleanup(sbb):
+            continue
+        pe = fl.place_expr(st["place"])
+        ctr = counter_of(ctx, b, pe, counters)
+        if ctr is None:
+            continue
+        rv = st["rv"]
+        if rv["k"] == "binop" and rv["op"] == "BitXor":
+            continue          # the re-base (R4.3)
+        c2, off = counter_val(ctx, b, fl.rvalue_expr(rv, sbb), counters)
+        if c2 == ctr and off == 1:
+            adds.append((sbb, ctr))
+        elif c2 == ctr and off == -1:
+            subs.append((sbb, ctr))
+        elif c2 == ctr and off == 0:
+            pass
+        else:
+            other.append((sbb, ctr))
+    return adds, subs, other
 
 
 def outgoing_counter(ctx, poll_body, counters):
@@ -144,9 +196,8 @@ def r4_1(ctx, R, otypes):
     for b, bb, e in wrapper_builders(ctx):
         fl = ctx.flow(b)
         idx = e[2][e[3].index("index")]
-        ctr = counter_of(ctx, b, idx, allc)
-        adds = [(x[0], counter_of(ctx, b, fl.operand_expr(x[1]["args"][0]), allc)) for x in direct_sites(b, RE_ADD_ASSIGN)]
-        subs = [(x[0], counter_of(ctx, b, fl.operand_expr(x[1]["args"][0]), allc)) for x in direct_sites(b, RE_SUB_ASSIGN)]
+        ctr, idx_off = counter_val(ctx, b, idx, allc)
+        adds, subs, others_ = counter_updates(ctx, b, fl, allc)
         succ, _ = feasible_cfg(b, fl)
         paths = [p for k, p in enumerate_paths(b, succ) if k == "return"]
         # the statement reading the counter for the index
@@ -185,19 +236,23 @@ def r4_1(ctx, R, otypes):
         if ctr in incoming:
             kinds["back"] = kinds.get("back", 0) + 1
             inc_sites = [x for x, c in adds if c == ctr]
-            other = [x for x, c in adds + subs if c is not None and c != ctr] + [x for x, c in subs if c == ctr]
+            other = [x for x, c in adds + subs if c is not None and c != ctr] + [x for x, c in subs if c == ctr] + [x for x, c in others_]
             once = bool(paths) and all(sum(1 for y in p if y in inc_sites) == 1 for p in paths)
             # read before increment: no increment site strictly dominates the read
-            before = not any(b.dominates(x, read_bb) and x != read_bb for x in inc_sites)
+            before = not any(b.dominates(x, read_bb) and x != read_bb for x in inc_sites) and idx_off == 0
             ctx.ob("R4.1", b, "push-back:index=incoming(before +1 exactly once)", once and before and not other, b.loc(bb),
                    "incoming=%s; +1 sites %s; once-per-path=%s; read-before-inc=%s; other counter updates=%s" % (
                        ctr, [b.loc(x) for x in inc_sites], once, before, [b.loc(x) for x in other]))
         else:
             kinds["front"] = kinds.get("front", 0) + 1
             dec_sites = [x for x, c in subs if c == ctr]
-            other = [x for x, c in adds + subs if c is not None and c != ctr] + [x for x, c in adds if c == ctr]
+            other = [x for x, c in adds + subs if c is not None and c != ctr] + [x for x, c in adds if c == ctr] + [x for x, c in others_]
             once = bool(paths) and all(sum(1 for y in p if y in dec_sites) == 1 for p in paths)
-            after = all(b.dominates(x, read_bb) and x != read_bb for x in dec_sites) and bool(dec_sites)
+            if idx_off == -1:
+                # index = counter.wrapping_sub(1) computed from the value BEFORE the (single) decrement that stores it back
+                after = not any(b.dominates(x, read_bb) and x != read_bb for x in dec_sites) and bool(dec_sites)
+            else:
+                after = all(b.dominates(x, read_bb) and x != read_bb for x in dec_sites) and bool(dec_sites) and idx_off == 0
             ctx.ob("R4.1", b, "push-front:index=outgoing(after -1 exactly once)", once and after and not other, b.loc(bb),
                    "outgoing=%s; -1 sites %s; once-per-path=%s; read-after-dec=%s; other counter updates=%s" % (
                        ctr, [b.loc(x) for x in dec_sites], once, after, [b.loc(x) for x in other]))
@@ -238,7 +293,8 @@ def r4_1(ctx, R, otypes):
                     ops = dict(zip(e[3], e[2]))
                     o = og.get(path)
                     i = [x for x in w if x != o][0] if o else None
-                    zero = o and ops[o][0] == "agg" and ops[o][2][0][0] == "const" and ops[o][2][0][2] == "0"
+                    zero = o and ((ops[o][0] == "agg" and ops[o][2] and ops[o][2][0][0] == "const" and ops[o][2][0][2] == "0") or
+                                  (ops[o][0] == "const" and ops[o][2] == "0"))
                     # incoming = the local counter captured by the numbering closure
                     inc_ok = False
                     if i:
@@ -288,6 +344,9 @@ def _explicit_counter_step(ctx, b, fl, agg_bb, paths):
             v = fl.rvalue_expr(st["rv"], sbb)
             good = v[0] == "call" and "Wrapping<usize> as core::ops::Add" in (v[1] or "") and is_cap(v[2][0]) and \
                 v[2][1][0] == "agg" and v[2][1][1].endswith("Wrapping::Wrapping") and v[2][1][2][0][0] == "const" and v[2][1][2][0][2] == "1"
+            if not good:
+                good = v[0] == "call" and (v[1] or "").endswith("<impl usize>::wrapping_add") and is_cap(v[2][0]) and \
+                    v[2][1][0] == "const" and v[2][1][2] == "1"
             ups.append((sbb, si, good))
     for sbb, t, fn in direct_sites(b, RE_ADD_ASSIGN):
         if is_cap(fl.operand_expr(t["args"][0])):
@@ -374,8 +433,7 @@ def r4_2(ctx, R, otypes):
                 det = expr_str(v)
                 if v[0] == "proj" and v[2][-1] == ".data":
                     item = v[1] if len(v[2]) == 1 else ("proj", v[1], v[2][:-1])
-                    inc_sites = {ib for ib, it, ifn in direct_sites(b, RE_ADD_ASSIGN)
-                                 if counter_of(ctx, b, fl.operand_expr(it["args"][0]), w) == o}
+                    inc_sites = {ib for ib, c_ in counter_updates(ctx, b, fl, w)[0] if c_ == o}
 
                     def in_turn(lab):
                         if not (lab[0] == "bool" and lab[1][0] == "binop" and ((lab[1][1] == "Eq" and lab[2] is True) or (lab[1][1] == "Ne" and lab[2] is False))):
@@ -429,6 +487,11 @@ def _same_item(index_expr, item_expr):
     cb = [c for c in expr_calls(b) if (c[1] or "").endswith("PeekMut::<'a, T, A>::pop")]
     if ca and cb:
         return strip_refs(ca[0][2][0]) == strip_refs(cb[0][2][0])
+    # peek() for the test, pop() for the value: both name the top of the same heap
+    pa = [c for c in expr_calls(a) if re.search(r"BinaryHeap::<T, A>::peek$", c[1] or "")]
+    pb = [c for c in expr_calls(b) if re.search(r"BinaryHeap::<T, A>::pop$", c[1] or "")]
+    if pa and pb:
+        return strip_refs(pa[0][2][0]) == strip_refs(pb[0][2][0])
     return False
 
 
@@ -750,6 +813,14 @@ def r4_6(ctx, R, otypes):
                 fl = ctx.flow(b)
                 item = fl.operand_expr(t["args"][1])
                 from_up = any(re.search(RE_STREAM_POLL_NEXT, c[1] or "") for c in expr_calls(item))
+                if not from_up:
+                    from lib_flow import path_exprs
+                    try:
+                        items = path_exprs(b, fl, bb, t["args"][1])
+                    except RuntimeError:
+                        items = []
+                    from_up = bool(items) and all(any(re.search(RE_STREAM_POLL_NEXT, c[1] or "") for c in expr_calls(x)) for x in items)
+                    item = items[0] if items else item
                 ctx.ob("R4.6", b, "adapter-push_back-of-upstream-item@%s" % _site_label(b, bb), from_up, b.loc(bb), expr_str(item))
     ctx.floor("R4.6", "adapter-push_back-sites", n, 2)
 
